@@ -634,6 +634,11 @@ func CheckC04(o *Outcome) ([]Problem, Cover) {
 				if m.Pre != nil && m.Pre.Owner != c.Owner {
 					bad(c, "owner-conflict-retried-into-success", "Teardown with owner option %q committed on a resource owned by %q", c.Owner, m.Pre.Owner)
 				}
+
+				// the returned flag reflects the value this call wrote (C04: "the returned object reflects it")
+				if c.Ready != nil && *c.Ready != (len(m.Post.Fins) == 0) {
+					bad(c, "teardown-result-does-not-reflect-its-commit", "Teardown returned ready=%v but the value it committed at %d is %s", *c.Ready, m.Seq, describe(m.Post))
+				}
 			default:
 				bad(c, "mutation-not-applied-exactly-once", "Teardown committed %d writes", len(mine))
 			}
